@@ -21,6 +21,7 @@ import (
 	"github.com/contiv/libOpenflow/common"
 	"github.com/contiv/libOpenflow/simrt"
 	log "github.com/sirupsen/logrus"
+	stdlog "log"
 )
 
 // ReplayFile is the on-disk form of one reproducible execution.
@@ -75,6 +76,7 @@ type outcome struct {
 
 func init() {
 	log.SetOutput(io.Discard)
+	stdlog.SetOutput(io.Discard) // some decoders report through the standard logger
 	log.SetLevel(log.PanicLevel)
 }
 
